@@ -27,6 +27,9 @@ mod packing;
 mod prepack;
 mod tiles;
 
+#[cfg(rten_verif)]
+pub mod verif;
+
 pub use block_quant::{BlockQuantizedGemm, BlockQuantizedMatrix, ComputeMode};
 pub use errors::{BlockQuantizedError, GemmError};
 pub use im2col::{ColOffsets, Im2Col, RowOffsets};
@@ -533,6 +536,10 @@ impl WithKernel for GemmExecutor<f32, f32, f32> {
 
 impl Default for GemmExecutor<f32, f32, f32> {
     fn default() -> Self {
+        #[cfg(rten_verif)]
+        if let Some(gemm) = verif::forced_f32_executor() {
+            return gemm;
+        }
         #[cfg(target_arch = "x86_64")]
         try_kernel!(F32KernelType::Avx512);
         #[cfg(target_arch = "x86_64")]
@@ -602,6 +609,10 @@ impl WithKernel for GemmExecutor<u8, i8, i32> {
 
 impl Default for GemmExecutor<u8, i8, i32> {
     fn default() -> Self {
+        #[cfg(rten_verif)]
+        if let Some(gemm) = verif::forced_int8_executor() {
+            return gemm;
+        }
         #[cfg(target_arch = "x86_64")]
         {
             try_kernel!(Int8KernelType::Avx512);
